@@ -214,7 +214,7 @@ func init() {
 	Register(&Engine{
 		ID:      "C15",
 		Anchors: []string{"match.go:pathVersion.Match", "match.go:headerVersion.Match", "match.go:NewPathVersion", "match.go:NewHeaderVersion"},
-		Cases:   func(t string) int { return map[string]int{"quick": 1600, "thorough": 60000}[t] },
+		Cases:   func(t string) int { return map[string]int{"quick": 20000, "thorough": 800000}[t] },
 		Run:     runC15,
 		Rule: "case = 60 path-version matchers (1-4 versions from an overlapping pool: v1, v11, /v1, v1/, v1/x, ...) x 6 paths (exact prefix, prefix without trailing slash, version text recurring later, empty, raw bytes) and 60 header-version matchers x 6 Accept headers (well-formed by construction with random parameter order/case/quoting/spacing, malformed, raw bytes); accept/reject, rewritten path, recorded parameter and untouched-on-reject (deep comparison) are checked against the direct model; " +
 			"non-trivial (distinct by versions+input) = rejected request, or accepted with several versions listed / any header acceptance",
